@@ -104,7 +104,17 @@ func init() {
 	})
 }
 
+// runC12: most cases run alone; some run as concurrent sessions of the same
+// case shape in one process (package-level state in the code under test).
 func runC12(cs *vrt.Case) {
+	if cs.Idx%16 == 5 {
+		cs.Twins(2, func(sub *vrt.Case, _ *vrt.Rng) { runC12One(sub) })
+		return
+	}
+	runC12One(cs)
+}
+
+func runC12One(cs *vrt.Case) {
 	op := c12Ops[cs.Idx%len(c12Ops)]
 	w := c12Widths[(cs.Idx/len(c12Ops))%len(c12Widths)]
 	signed := (cs.Idx/(len(c12Ops)*len(c12Widths)))%2 == 0
